@@ -70,5 +70,9 @@ ThmRecompose == (phase = 1 /\ kind \in {"user", "alias"} /\ Verdict(kind, s) = "
    LET c == ColonPos(s) IN <<s[1]>> \o SubSeq(s, 2, c - 1) \o <<58>> \o SubSeq(s, c + 1, Len(s)) = s
 
 Emit == phase = 1 =>
-  PrintT(<<"CASE", ToJson([kind |-> kind, runs |-> Runs(s), bytes |-> Bytes(s), verdict |-> Verdict(kind, s)])>>)
+  PrintT(<<"CASE", ToJson([kind |-> kind, runs |-> Runs(s), bytes |-> Bytes(s), verdict |-> Verdict(kind, s),
+                           \* the component in front of the FIRST colon (localpart / algorithm): what the accessors must return
+                           hascolon |-> ColonPos(s) > 1,
+                           head |-> IF ColonPos(s) <= 1 THEN <<>>
+                                    ELSE Runs(SubSeq(s, IF kind \in {"serverkey", "devicekey"} THEN 1 ELSE 2, ColonPos(s) - 1))])>>)
 =============================================================================
